@@ -266,7 +266,9 @@ fn match_nested_brackets<'text: 'a, 'a, Sc, A>(
                         index: idx,
                     });
                 },
-                Some(_) => unreachable!(),
+                // A nested pair was closed; an enclosing bracket of another
+                // kind is still open.
+                Some(_) => (),
             }
         } else if let Some(idx) = open_tokens.iter().position(|t| t == &tok) {
             event!(Level::TRACE, "found open token ({:?} idx={} @ {})",
